@@ -248,6 +248,7 @@ Section Strings.
              else split_go sep 0 (c :: cur) t
       end
     end.
+  Definition sl_unwords (space : Ch) (ps : list str) : str := sl_join [space] ps.
   Definition sl_split (sep s : str) : option (list str) :=
     match sep with [] => None | _ => Some (split_go sep 0 [] s) end.
   (* words: maximal runs of non-whitespace *)
@@ -267,6 +268,8 @@ Section Strings.
     | [] :: r => rev r
     | _ => ps
     end.
+  (* unlines: join by newlines and add a trailing newline; unwords: join by one space *)
+  Definition sl_unlines (ps : list str) : str := sl_join [newline] ps ++ [newline].
 End Strings.
 
 (* ---- small sanity examples (the documentation's own examples where it gives one) *)
@@ -288,4 +291,5 @@ Proof. reflexivity. Qed.
 Example ex_split : sl_split Nat.eqb [0] [1; 0; 2; 0; 0; 3] = Some [[1]; [2]; []; [3]]. Proof. reflexivity. Qed.
 Example ex_split2 : sl_split Nat.eqb [0; 0] [0; 0; 0; 1] = Some [[]; [0; 1]]. Proof. reflexivity. Qed.
 Example ex_lines : sl_lines Nat.eqb 0 [1; 0; 0; 2; 0] = [[1]; []; [2]]. Proof. reflexivity. Qed.
+Example ex_lines_cr : sl_lines Nat.eqb 0 [1; 13; 0; 2; 13; 0] = [[1; 13]; [2; 13]]. Proof. reflexivity. Qed.
 Example ex_scan : sl_scan Nat.add [1; 2; 3] = [1; 3; 6]. Proof. reflexivity. Qed.
